@@ -67,9 +67,8 @@ def run(ctx):
                    "canonicalize_url resolves dot segments on the still-escaped path: /a/%2E%2E/b becomes /a/../b and only the next application resolves it",
                    site, witness="http://a.com/a/%2E%2E/b")
     # nothing re-introduces escapes or dots after normpath except quote (which cannot create dots)
-    normpath_order(ctx, "R5")
-    if ctx.tier == "thorough":
-        normpath_table(ctx, "R5")
+    ctx.fn("ural.utils.normpath")
+    U.normpath_table(ctx, "R5", 5 if ctx.tier == "thorough" else 4)
     # R6 host chain -------------------------------------------------------------------
     ctx.rule("R6", "host spelling: the host passes through punycode decoding and lower-casing; both default ports are dropped (table shared with C01)")
     bad = F.unguarded_paths(host, U.is_attr("hostname"), F.is_call(U.U + "decode_punycode_hostname"))
@@ -113,72 +112,3 @@ def control_chars_language(ctx, rule):
     ctx.ob(rule, "CONTROL_CHARS_RE/only-controls", w is None, "CONTROL_CHARS_RE also deletes the printable character %r" % w, site, witness=w)
 
 
-def normpath_order(ctx, rule):
-    """inside normpath: consecutive slashes are squeezed before the path is cut into segments (a//../b)."""
-    import ast
-    from ..srcmodel import unparse
-    ut = ctx.repo.mod("utils")
-    fn = ut.func("normpath").node
-    ctx.fn("ural.utils.normpath")
-    splits = [n for n in ast.walk(fn) if isinstance(n, ast.Assign) and isinstance(n.value, ast.Call) and isinstance(n.value.func, ast.Attribute) and n.value.func.attr == "split"
-              and n.value.args and isinstance(n.value.args[0], ast.Constant) and n.value.args[0].value == "/"]
-    squeezes = [n for n in ast.walk(fn) if isinstance(n, ast.Call) and ((isinstance(n.func, ast.Attribute) and n.func.attr == "sub" and "SLASH_SQUEEZE" in unparse(n.func.value)) or (unparse(n.func) == "re.sub" and n.args and "SLASH_SQUEEZE" in unparse(n.args[0])))]
-    ctx.ob(rule, "normpath/squeezes-slashes", bool(squeezes), "normpath no longer squeezes consecutive slashes", ut.site(fn), witness="http://a.com/a//b")
-    ctx.ob(rule, "normpath/splits-on-slash", len(splits) == 1, "normpath does not cut the path into '/' segments once", ut.site(fn))
-    if squeezes and splits:
-        sq = squeezes[0]
-        sp = splits[0]
-        arg = sq.args[-1]
-        recv = sp.value.func.value
-        ok = sq.lineno < sp.lineno and isinstance(arg, ast.Name) and isinstance(recv, ast.Name) and arg.id == recv.id
-        # the squeezed value must be what is split: squeeze assigned back to the same name before the split
-        assigned = [n for n in ast.walk(fn) if isinstance(n, ast.Assign) and n.value is sq and isinstance(n.targets[0], ast.Name) and isinstance(recv, ast.Name) and n.targets[0].id == recv.id]
-        ctx.ob(rule, "normpath/squeeze-before-segment-resolution", ok and bool(assigned),
-               "normpath resolves '..' segments on the un-squeezed path (the squeeze is applied at line %d, the split at line %d): the empty segment of 'a//../b' absorbs the '..'" % (sq.lineno, sp.lineno),
-               ut.site(sp), witness="http://example.com/a//../b")
-
-
-def normpath_table(ctx, rule):
-    """thorough tier: normpath interpreted on every path of <= 5 segments over {a, b, '.', '..', ''} against an
-    independent RFC 3986 5.2.4 reference (slashes squeezed first, trailing slash dropped as normpath documents)."""
-    import itertools
-    from ..microeval import run_function
-    ut = ctx.repo.mod("utils")
-    ref = ut.func("normpath")
-
-    def reference(path):
-        import re as _re
-        path = _re.sub(r"/{2,}", "/", path)
-        out = []
-        segs = path.split("/")
-        lead = segs[0] == "" and len(segs) > 1
-        for i, s in enumerate(segs):
-            if i == 0 and lead:
-                continue
-            if s == ".":
-                continue
-            if s == "..":
-                if out:
-                    out.pop()
-                continue
-            out.append(s)
-        res = ("/" if lead else "") + "/".join(out)
-        return res.rstrip("/")
-    n = 0
-    bad = None
-    for L in range(1, 6):
-        for tup in itertools.product(("a", "b", ".", "..", ""), repeat=L):
-            p = "/" + "/".join(tup)
-            n += 1
-            try:
-                got = run_function(ctx.repo, ref, [p])
-            except Unknown as e:
-                ctx.undecided(rule, "normpath(%r): %s" % (p, e))
-                return
-            if got != reference(p):
-                bad = (p, got, reference(p))
-                break
-        if bad:
-            break
-    ctx.ob(rule, "normpath/table", bad is None, "normpath(%r) gives %r, the RFC 3986 dot-segment reference gives %r" % (bad or ("", "", "")), ut.site(ref.node), witness=bad and "http://a.com" + bad[0],
-           sample="%d absolute paths of <= 5 segments over {a, b, ., .., empty}" % n)
